@@ -7,8 +7,12 @@ No source hook in /repo is needed."""
 from __future__ import annotations
 
 
+FETCHES = ("fetchall", "fetchone", "fetchmany", "fetch_arrow_table", "fetch_record_batch", "fetchdf", "fetchnumpy", "arrow", "df", "pl")
+
+
 class Counter:
-    def __init__(self, before=None):
+    def __init__(self, before=None, fetch_points=False):
+        self.fetch_points = fetch_points      # also count (and hook) the calls that collect the result of the last execute
         self.n = 0
         self.log = []
         self.before = before          # callable(index, sql, owner) invoked before every engine call
@@ -37,10 +41,17 @@ class EngineProxy:
         return self
 
     def __getattr__(self, name):
-        return getattr(self._real, name)
+        attr = getattr(self._real, name)
+        if name in FETCHES and self._counter.fetch_points and callable(attr):
+            def fetch(*args, **kwargs):
+                self._counter.tick(f"<{name}>", self._owner)
+                return attr(*args, **kwargs)
+
+            return fetch
+        return attr
 
 
-def install(fs, before=None) -> Counter:
-    counter = Counter(before)
+def install(fs, before=None, fetch_points=False) -> Counter:
+    counter = Counter(before, fetch_points)
     fs.duck_conn = EngineProxy(fs.duck_conn, counter)
     return counter
